@@ -1,4 +1,7 @@
 import ClipVerif.Proofs.C05
+import ClipVerif.Model.Offset
+import ClipVerif.Proofs.Offset
+import ClipVerif.Proofs.OffsetPlan
 /-
 C05 — polygon offsetting grows/shrinks the region by delta.  The metric claims depend on
 `math.Sin/Cos/Acos/Atan2` and float rounding and are explored by the sampling search with the exact
@@ -32,5 +35,72 @@ theorem strip_id_partial (path : List Point64) (closed : Bool)
   Proofs.C05.strip_id_fixed path closed h1 h2 h3
 
 theorem strip_one_point_closed_emptied : stripDuplicates [(⟨0, 0⟩ : Point64)] true = [] := by decide
+
+/-! ### `GetLowestPathInfo` (model `Model.lowestPathInfo`, tied by `models-corr lowest`): which path
+decides the orientation of a polygon group -/
+
+/-- the reported orientation is that of the reported path, whose area is not zero -/
+theorem lowest_orientation (area : List Point64 → Int) (paths : List (List Point64)) (i : Nat)
+    (h : (Model.lowestPathInfo area paths).1 = (i : Int)) :
+    i < paths.length ∧ area paths[i]! ≠ 0 ∧
+    (Model.lowestPathInfo area paths).2 = decide (area paths[i]! < 0) := by
+  exact Proofs.Offset.lowest_orientation area paths i h
+
+/-- the reported path holds a point that no point of any path of non-zero area lies below (larger
+    Y) or, at the same height, strictly left of -/
+theorem lowest_is_lowest (area : List Point64 → Int) (paths : List (List Point64)) (i : Nat)
+    (h : (Model.lowestPathInfo area paths).1 = (i : Int)) :
+    ∃ b ∈ paths[i]!, ∀ p ∈ paths, area p ≠ 0 → ∀ q ∈ p, q.Y < b.Y ∨ (q.Y = b.Y ∧ q.X ≥ b.X) := by
+  exact Proofs.Offset.lowest_is_lowest area paths i h
+
+/-- no path is reported exactly when every path of non-zero area is empty (or only has points at
+    the extreme sentinel position) -/
+theorem lowest_none (area : List Point64 → Int) (paths : List (List Point64))
+    (h : (Model.lowestPathInfo area paths).1 = -1) :
+    ∀ p ∈ paths, area p ≠ 0 → ∀ q ∈ p, q.Y = Int64.minValue ∧ q.X = Int64.maxValue := by
+  exact Proofs.Offset.lowest_none area paths h
+
+
+/-! ### The decisions of `InflatePaths64` (model `Model.offsetPlan`, tied by `models-corr offplan` through the
+event recorder): which delta a group gets and how the final union is configured -/
+
+/-- `|delta| < 0.5` returns the stripped input paths and nothing else happens -/
+theorem offsetPlan_small_delta (sd : List Point64 → Bool → List Point64) (area : List Point64 → Int)
+    (paths : List (List Point64)) (delta : Float) (jt et : Nat) (rev pc : Bool)
+    (hne : paths ≠ []) (hd : delta.abs < 0.5) :
+    Model.offsetPlan sd area paths delta jt et rev pc = [Model.OffEv.passThrough] := by
+  exact Proofs.OffsetPlan.small_delta sd area paths delta jt et rev pc hne hd
+
+/-- polygons: the group is offset by `delta` when the path holding the lowest point is positively
+    oriented and by `-delta` when it is negatively oriented (so that a positive delta always grows
+    the filled region), and the final union uses the matching fill rule (Positive / Negative) and
+    orientation of the result -/
+theorem offsetPlan_polygon (sd : List Point64 → Bool → List Point64) (area : List Point64 → Int)
+    (paths : List (List Point64)) (delta : Float) (jt : Nat) (rev pc : Bool)
+    (hne : paths ≠ []) (hd : ¬ delta.abs < 0.5) (i : Nat)
+    (hi : (Model.lowestPathInfo area (paths.map (fun p => sd p true))).1 = (i : Int)) :
+    let neg := decide (area ((paths.map (fun p => sd p true))[i]!) < 0)
+    ∃ evs, Model.offsetPlan sd area paths delta jt 0 rev pc =
+      [Model.OffEv.group (if neg then -delta else delta) 0 jt (i : Int) neg] ++ evs ++
+      [Model.OffEv.union (if neg then 3 else 2) (rev != neg) pc] := by
+  exact Proofs.OffsetPlan.polygon sd area paths delta jt rev pc hne hd i hi
+
+/-- open end types: the stroke half-width is `|delta|` whatever its sign, the union is Positive -/
+theorem offsetPlan_open (sd : List Point64 → Bool → List Point64) (area : List Point64 → Int)
+    (paths : List (List Point64)) (delta : Float) (jt et : Nat) (rev pc : Bool)
+    (hne : paths ≠ []) (hd : ¬ delta.abs < 0.5) (het : et ≠ 0) :
+    ∃ evs, Model.offsetPlan sd area paths delta jt et rev pc =
+      [Model.OffEv.group delta.abs et jt (-1) false] ++ evs ++ [Model.OffEv.union 2 rev pc] := by
+  exact Proofs.OffsetPlan.open sd area paths delta jt et rev pc hne hd het
+
+/-- a two-point path of a Joined group is stroked with square (or, for round joins, round) ends,
+    and this choice does not affect the other paths of the group -/
+theorem offsetPlan_path_dispatch (sd : List Point64 → Bool → List Point64) (area : List Point64 → Int)
+    (paths : List (List Point64)) (delta : Float) (jt et : Nat) (rev pc : Bool) (cnt e : Nat) (pts : List Point64)
+    (h : Model.OffEv.path cnt e pts ∈ Model.offsetPlan sd area paths delta jt et rev pc) :
+    cnt = pts.length ∧ 1 ≤ cnt ∧
+    e = (if cnt = 2 ∧ et = 1 then (if jt = 3 then 4 else 3) else et) := by
+  exact Proofs.OffsetPlan.path_dispatch sd area paths delta jt et rev pc cnt e pts h
+
 
 end C05
